@@ -136,7 +136,10 @@ Example C02_the_forms_example :
   gen_lingo (reify_e en 0 (EThe TSpecial 0)) 0 = "the floatPrecision" /\
   gen_lingo (reify_e en 0 (EThe TDateTime 5)) 0 = "the long date" /\
   gen_lingo (reify_e en 0 (EBin Add (EThe TSystem 27) (EInt 1))) 0 = "(the stageColor + 1)" /\
-  parse_expr 9 (strip (pp_tok en (EBin Add (EThe TSystem 27) (EInt 1)))) = Some (EBin Add (EThe TSystem 27) (EInt 1), []).
+  parse_expr 9 (strip (pp_tok en (EBin Add (EThe TSystem 27) (EInt 1)))) = Some (EBin Add (EThe TSystem 27) (EInt 1), []) /\
+  (* TNumOf: the number of castMembers / menus and the perFrameHook (5C 08) *)
+  gen_lingo (reify_e en 0 (EThe TNumOf 2)) 0 = "the number of castMembers" /\
+  gen_lingo (reify_e en 0 (EThe TNumOf 1)) 0 = "the perFrameHook".
 Proof. split; [cbn; lia|]. repeat split; vm_compute; reflexivity. Qed.
 
 (* properties addressed by name: the <name> (5F n; attached to its runtime object when the decompiler's table knows one)
